@@ -2271,6 +2271,25 @@ async fn handle_packet(
                     // the incoming source) is a separate concern gated by
                     // `enable_latching` inside handle_stun_request — it is NOT the same
                     // as "should we even reply to this STUN message".
+                    //
+                    // In WebRTC mode a connectivity check is only acted upon (answered,
+                    // peer-reflexive candidate learnt, USE-CANDIDATE honoured) when it
+                    // carries our ufrag in USERNAME and a MESSAGE-INTEGRITY computed with
+                    // our ICE password (RFC 8445 §7.3). Plain RTP / SRTP modes keep
+                    // accepting bare probes from SIP endpoints.
+                    if inner.config.transport_mode == crate::TransportMode::WebRtc {
+                        let (ufrag, password) = {
+                            let params = inner.local_parameters.lock();
+                            (params.username_fragment.clone(), params.password.clone())
+                        };
+                        if !stun::verify_request_credentials(packet, &ufrag, password.as_bytes()) {
+                            debug!(
+                                "Dropping STUN request from {} without valid USERNAME/MESSAGE-INTEGRITY",
+                                addr
+                            );
+                            return;
+                        }
+                    }
                     handle_stun_request(&sender, &msg, addr, inner).await;
                 } else if msg.class == StunClass::SuccessResponse {
                     let mut map = inner.pending_transactions.lock();
